@@ -5,18 +5,21 @@
    matches) and a list of queries; the observation is the list of answers. *)
 From Coq Require Import List ZArith Bool Arith.
 From NT Require Import Sx Rose SearchProofs.
-From NT Require Export Search.   (* the case files name its constructors *)
+From NT Require Export Search Regex.   (* the case files name their constructors *)
 Import ListNotations.
 
 Definition Tz (id : Z) (i : info) (ch : list rt) : rt := T (Z.to_nat id) i ch.
 
 Inductive matcher :=
-| MRe (names : list text)       (* the node names the pattern fully matches *)
+| MRx (seq ic : bool) (r : regex) (* a pattern inside the modelled syntax, sent as its syntax tree: the model's own
+                                     [fullmatchb] decides; seq = passed as (str, flags) / [str, flags], ic = IGNORECASE *)
+| MRe (names : list text)       (* any other pattern: the node names the real `re` says it fully matches *)
 | MPred (ids : list Z)          (* the nodes the callback answers true for *)
 | MIs (o : Z).                  (* data object identity *)
 
 Definition spec_of (m : matcher) : matchspec :=
   match m with
+  | MRx seq ic r => search_dispatch (if seq then MaSeq r ic else MaStr r)
   | MRe names => MsRe (fun s => existsb (text_eqb s) names)
   | MPred l => MsPred (fun t => existsb (Z.eqb (Z.of_nat (rid t))) l)
   | MIs o => MsIs o
@@ -105,3 +108,8 @@ Definition run_query (c : case) (q : query) : sx :=
 Definition run09 (c : case) : sx :=
   L [ sx_bool (state_wf_b (c_state c));
       L (map (run_query c) (c_queries c)) ].
+
+(* a history on ONE tree object: query, mutate, query again ... — every phase is
+   a case of its own (the state observed at that moment, the model is a pure
+   function of it); the observation is the list of the phases' observations *)
+Definition run09s (cs : list case) : sx := L (map run09 cs).
